@@ -24,6 +24,7 @@ structure Env where
   tbl : List (Name × List Byte) := []
   cfg : Cfg := {}
   st : Option State := none
+  missing : Option (List Nat) := none     -- fault injection: path of the refused sub-shard block
 
 def Env.h (e : Env) : Name → List Byte := fun n => ((e.tbl.find? (·.1 = n)).map (·.2)).getD []
 
@@ -64,19 +65,24 @@ def showSettings (s : Settings) : String :=
   let pm := match s.pmode with | none => "-" | some m => toString m
   s!"maxlinks={s.maxLinks} fanout={s.fanout} mode={pm} thr={s.thr} stat={showStat s.stat}"
 
-partial def showTree (w : Nat) : Trie → List String
+partial def showTree (w : Nat) (miss : Option (List Nat)) : Trie → List String
   | .nil => []
   | .val j k p ld l rest =>
     let ps := match p with | none => "-" | some q => prefixStr w q
-    s!"{j}{if ld then "V" else "v"}{ps}|{k}|{l.cid}|{l.size}" :: showTree w rest
+    s!"{j}{if ld then "V" else "v"}{ps}|{k}|{l.cid}|{l.size}" :: showTree w miss rest
   | .sub j ld c rest =>
-    (s!"{j}{if ld then "S" else "s"}[" ++ " ".intercalate (showTree w c) ++ "]") :: showTree w rest
+    let here : Bool := miss == some [j] && !ld
+    let below : Option (List Nat) := match miss with
+      | some (i :: q) => if i = j ∧ q ≠ [] then some q else none
+      | _ => none
+    (if here then s!"{j}s!missing"
+     else s!"{j}{if ld then "S" else "s"}[" ++ " ".intercalate (showTree w below c) ++ "]") :: showTree w miss rest
 
-def showState (st : State) (full : Bool) : String :=
+def showState (st : State) (full : Bool) (miss : Option (List Nat) := none) : String :=
   match st.dir with
   | .basic b => s!"basic est={b.est} total={b.total} {showSettings b.s} b={b.s.builder}"
   | .hamt hd =>
-    let tree := if full then " tree=[" ++ " ".intercalate (showTree hd.width hd.shard) ++ "]" else ""
+    let tree := if full then " tree=[" ++ " ".intercalate (showTree hd.width miss hd.shard) ++ "]" else ""
     s!"hamt chg={hd.chg} total={hd.total} {showSettings hd.s}{tree} b={hd.s.builder}"
 
 def showEntries (es : List (Name × Lnk)) : String :=
@@ -141,23 +147,54 @@ def freshVerdict (e : Env) (st : State) : String :=
     | some err => s!"fresh-{showRes err}"
     | none => if showNode r.1 = showNode st then "same" else "diff"
 
+/-- the refused sub-shard (if any, and still unloaded) of the current HAMT directory -/
+def activeFault (e : Env) : Option (Hamt × List Nat) :=
+  match e.missing, e.st with
+  | some p, some st =>
+    match st.dir with
+    | .hamt hd => if hd.shard.unloadedAt p then some (hd, p) else none
+    | .basic _ => none
+  | _, _ => none
+
+/-- an operation on `name` has to load the refused sub-shard: it fails, having loaded the ancestors -/
+def keyFault (e : Env) (name : Name) : Option State :=
+  match activeFault e, e.st with
+  | some (hd, p), some st =>
+    if p.isPrefixOf (hd.dg e.h name) then some { st with dir := .hamt { hd with shard := hd.shard.loadTo p } } else none
+  | _, _ => none
+
+def showPath (p : List Nat) : String := ".".intercalate (p.map toString)
+
 def step (e : Env) (line : String) : Env × String :=
   match (line.trimAscii.toString.splitOn " ").filter (· ≠ "") with
   | ["case", n] => ({}, s!"case {n}")
   | ["end"] => ({}, "end")
+  | ["faultreload", k] =>
+    match e.st with
+    | none => (e, "bad-op")
+    | some st =>
+      let st' := reload e.g st
+      let paths := match st'.dir with | .hamt hd => hd.shard.subPaths | .basic _ => []
+      let miss := if paths.isEmpty then e.missing else paths[k.toNat?.getD 0 % paths.length]?
+      let wh := if paths.isEmpty then "-" else showPath (miss.getD [])
+      ({ e with st := some st', missing := miss, cfg := { e.cfg with kind := "dyn", maxLinks := 0, fanout := 0, pmode := none, pthr := 0 } },
+        s!"ok fault={wh} | {showState st' false}")
   | ["cfg", thr, mode, defw, _] =>
-    ({ e with g := { thr := thr.toInt?.getD 0, mode := mode.toNat?.getD 0, defWidth := defw.toInt?.getD 256 }, tbl := [], st := none }, "ok")
+    ({ e with g := { thr := thr.toInt?.getD 0, mode := mode.toNat?.getD 0, defWidth := defw.toInt?.getD 256 }, tbl := [], st := none, missing := none }, "ok")
   | ["new", kind, ml, fan, pm, pthr, stm, sec, ns, b] =>
     let c : Cfg := { kind := kind, maxLinks := ml.toInt?.getD 0, fanout := fan.toInt?.getD 0, pmode := pm.toNat?,
                      pthr := pthr.toInt?.getD 0, statMode := parseOct stm, mtime := mtimeOf (sec.toInt?.getD 0) (ns.toNat?.getD 0), builder := b }
     match build e.g c with
-    | none => ({ e with cfg := c, st := none }, "invalid")
-    | some st => ({ e with cfg := c, st := some st }, s!"ok | {showState st false}")
+    | none => ({ e with cfg := c, st := none, missing := none }, "invalid")
+    | some st => ({ e with cfg := c, st := some st, missing := none }, s!"ok | {showState st false}")
   | ["add", name, hash, cid, clen, tsize] =>
     match e.st with
     | none => (e, "bad-op")
     | some st =>
       let e := setTbl e (nameOf name) hash
+      match keyFault e (nameOf name) with
+      | some st' => ({ e with st := some st' }, s!"fault | {showState st' false}")
+      | none =>
       let r := addChild e.h e.g st (nameOf name) { cid := cid, clen := clen.toNat?.getD 0, size := tsize.toNat?.getD 0 }
       ({ e with st := some r.1 }, s!"{showRes r.2} | {showState r.1 false}")
   | ["rm", name, hash] =>
@@ -165,6 +202,9 @@ def step (e : Env) (line : String) : Env × String :=
     | none => (e, "bad-op")
     | some st =>
       let e := setTbl e (nameOf name) hash
+      match keyFault e (nameOf name) with
+      | some st' => ({ e with st := some st' }, s!"fault | {showState st' false}")
+      | none =>
       let r := removeChild e.h e.g st (nameOf name)
       ({ e with st := some r.1 }, s!"{showRes r.2} | {showState r.1 false}")
   | ["find", name, hash] =>
@@ -172,16 +212,22 @@ def step (e : Env) (line : String) : Env × String :=
     | none => (e, "bad-op")
     | some st =>
       let e := setTbl e (nameOf name) hash
+      match keyFault e (nameOf name) with
+      | some st' => ({ e with st := some st' }, "fault")
+      | none =>
       let r := findChild e.h st (nameOf name)
       ({ e with st := some r.1 }, match r.2 with | some (some c) => c | some none => "notfound" | none => "toodeep")
   | ["list"] | ["async"] =>
     match e.st with
     | none => (e, "bad-op")
-    | some st => (e, showEntries (sortEntries (entriesOf st)))
+    | some st => (e, if (activeFault e).isSome then "fault" else showEntries (sortEntries (entriesOf st)))
   | ["each"] =>
     match e.st with
     | none => (e, "bad-op")
     | some st =>
+      match activeFault e with
+      | some (hd, p) => ({ e with st := some { st with dir := .hamt { hd with shard := hd.shard.stripTo p } } }, "fault")
+      | none =>
       let out := match st.dir with
         | .basic b => showEntries b.sortedLinks
         | .hamt _ => showEntries (dirEntries st)
@@ -245,7 +291,7 @@ def step (e : Env) (line : String) : Env × String :=
   | ["dump"] =>
     match e.st with
     | none => (e, "bad-op")
-    | some st => (e, showState st true)
+    | some st => (e, showState st true e.missing)
   | ["fresh"] =>
     match e.st with
     | none => (e, "bad-op")
